@@ -17,10 +17,20 @@ func yamlToJSON(y []byte) ([]byte, error) { return yaml.YAMLToJSON(y) }
 
 // content is the digest of everything a user could have put into the object:
 // the whole object minus the fields the API server maintains.
-func content(u *unstructured.Unstructured) string {
+func (w *world) content(u *unstructured.Unstructured) string {
 	if u == nil {
 		return ""
 	}
+	ck := simapi.KeyOf(u).String() + "@" + u.GetResourceVersion()
+	if d, ok := w.ccache[ck]; ok {
+		return d
+	}
+	d := content(u)
+	w.ccache[ck] = d
+	return d
+}
+
+func content(u *unstructured.Unstructured) string {
 	c := u.DeepCopy()
 	c.SetResourceVersion("")
 	c.SetManagedFields(nil)
@@ -150,7 +160,7 @@ func (w *world) proj() map[string]any {
 		if u == nil {
 			return map[string]any{"p": false, "cur": false, "d": ""}
 		}
-		return map[string]any{"p": true, "cur": cur(u, kind), "d": content(u)}
+		return map[string]any{"p": true, "cur": cur(u, kind), "d": w.content(u)}
 	}
 	crdB := map[string]any{"p": false, "st": "none", "d": ""}
 	if u := w.s.Peek(kCRD(crdBName)); u != nil {
@@ -164,18 +174,18 @@ func (w *world) proj() map[string]any {
 				st = "old"
 			}
 		}
-		crdB = map[string]any{"p": true, "st": st, "d": content(u)}
+		crdB = map[string]any{"p": true, "st": st, "d": w.content(u)}
 	}
 	plain := func(k simapi.Key) map[string]any {
 		u := w.s.Peek(k)
-		return map[string]any{"p": u != nil, "d": content(u)}
+		return map[string]any{"p": u != nil, "d": w.content(u)}
 	}
 	pkgs := []any{}
 	for _, kind := range []string{"Configuration", "Function", "Provider"} {
 		for _, u := range w.s.All(schema.GroupKind{Group: "pkg.crossplane.io", Kind: kind}) {
 			src, _, _ := unstructured.NestedString(u.Object, "spec", "package")
 			h, r, v := parseImage(src)
-			pkgs = append(pkgs, map[string]any{"k": absKind[kind], "n": u.GetName(), "h": h, "r": r, "v": v, "d": content(u)})
+			pkgs = append(pkgs, map[string]any{"k": absKind[kind], "n": u.GetName(), "h": h, "r": r, "v": v, "d": w.content(u)})
 		}
 	}
 	dx, dp := w.digest()
@@ -200,7 +210,7 @@ func (w *world) digest() (rest, pkgs string) {
 		if k.Group == "pkg.crossplane.io" && absKind[k.Kind] != "" {
 			i = 1
 		}
-		parts[i] = append(parts[i], k.String()+"="+content(u))
+		parts[i] = append(parts[i], k.String()+"="+w.content(u))
 	}
 	var out [2]string
 	for i := range parts {
